@@ -49,20 +49,9 @@ type svcGen struct {
 	r     *rand.Rand
 	g     *G
 	facts []map[string]interface{}
-	// clean: stay outside the input classes of the known findings (empty
-	// bodies / empty typed values, non-string uri outside the envelopes,
-	// take and replace, unchecked getters, ids with a quote)
-	clean bool
 }
 
-func (s *svcGen) factId() string {
-	for {
-		id := svcFactIds[s.r.Intn(len(svcFactIds))]
-		if !s.clean || !strings.ContainsAny(id, "\"\\") {
-			return id
-		}
-	}
-}
+func (s *svcGen) factId() string { return svcFactIds[s.r.Intn(len(svcFactIds))] }
 
 func (s *svcGen) loc() string {
 	switch n := s.r.Intn(20); {
@@ -164,18 +153,16 @@ func (s *svcGen) logical() map[string]interface{} {
 		if r.Intn(2) == 0 {
 			p["inherited"] = r.Intn(3) != 0
 		}
-	case n < 52 && !s.clean:
+	case n < 52:
 		uri = "/api/loc/facts/take"
 		p["pattern"] = s.pattern()
-	case n < 56 && !s.clean:
+	case n < 56:
 		uri = "/api/loc/facts/replace"
 		p["pattern"] = s.pattern()
 		p["fact"] = s.fact()
-		p["id"] = fid
-	case n < 56:
-		uri = "/api/loc/facts/search"
-		p["pattern"] = s.pattern()
-		p["inherited"] = r.Intn(2) == 0
+		if r.Intn(5) != 0 {
+			p["id"] = fid
+		}
 	case n < 61:
 		uri = "/api/loc/facts/query"
 		q := map[string]interface{}{"pattern": s.pattern()}
@@ -209,7 +196,7 @@ func (s *svcGen) logical() map[string]interface{} {
 	case n < 86:
 		uri = "/api/loc/events/ingest"
 		ev := map[string]interface{}{s.g.Keys[r.Intn(len(s.g.Keys))]: svcStrs[r.Intn(len(svcStrs))]}
-		if r.Intn(3) == 0 && !s.clean {
+		if r.Intn(3) == 0 {
 			ev = s.g.event()
 		}
 		p["event"] = ev
@@ -342,30 +329,13 @@ func (s *svcGen) malformed() map[string]interface{} {
 		o["mal"] = "batch-uri-nonstring"
 		o["enc"] = "batch"
 	}
-	if s.clean {
-		mal, name := str(o["mal"]), str(o["name"])
-		unchecked := (name == "code" && uri == "/api/loc/util/js") ||
-			(name == "id" && (uri == "/api/loc/facts/add" || uri == "/api/loc/rules/add")) || name == "set"
-		switch {
-		case mal == "emptybody", mal == "empty-typed", mal == "batch-uri-nonstring", (mal == "missing" || mal == "illtyped") && unchecked:
-			o["mal"] = "unknown-uri"
-			o["to"] = "/api/loc/nothing"
-			o["prefix"] = "asis"
-			o["enc"] = pick(r, "query", "json", "yaml", "env-json", "env-yaml", "mixed").(string)
-			delete(o, "name")
-		case mal == "uri-nonstring":
-			o["enc"] = pick(r, "env-json", "env-yaml").(string)
-		case mal == "missing" && str(o["enc"]) == "form" && len(params) == 1:
-			o["enc"] = "json"
-		}
-	}
 	return o
 }
 
 func genService(r *rand.Rand, n int, tier string) []Case {
 	var cases []Case
 	for i := 0; i < n; i++ {
-		s := &svcGen{r: r, g: newG(r), clean: r.Intn(5) < 3}
+		s := &svcGen{r: r, g: newG(r)}
 		s.g.Strs = append(s.g.Strs, svcStrs...)
 		var ops []interface{}
 		if r.Intn(10) < 7 {
@@ -411,11 +381,7 @@ func genService(r *rand.Rand, n int, tier string) []Case {
 			}
 			dw = append(dw, map[string]interface{}{"in": b.String()})
 		}
-		profile := "full"
-		if s.clean {
-			profile = "clean"
-		}
-		cases = append(cases, Case{"ops": ops, "dwim": dw, "profile": profile})
+		cases = append(cases, Case{"ops": ops, "dwim": dw})
 	}
 	return cases
 }
@@ -572,7 +538,11 @@ func (w *svcWorld) direct(uri string, p map[string]interface{}) []interface{} {
 	case "/api/loc/facts/take":
 		return []interface{}{take()}
 	case "/api/loc/facts/replace":
+		// take, then add; a failing take ends the operation
 		t := take()
+		if !boolean(t["ok"]) {
+			return []interface{}{t}
+		}
 		return []interface{}{t, dres(w.sys.AddFact(ctx, loc, id, pjson(p, "fact")))}
 	case "/api/loc/facts/query":
 		return one(w.sys.Query(ctx, loc, pjson(p, "query")))
@@ -630,9 +600,11 @@ func (w *svcWorld) direct(uri string, p map[string]interface{}) []interface{} {
 	return []interface{}{map[string]interface{}{"ok": false, "msg": "harness: no direct call for " + uri}}
 }
 
-// mirror keeps the twin in step when the service ACCEPTS a malformed request
-// and acts on part of it (errors of parameter getters or of inner requests
-// that are not looked at): it applies exactly the parts that can run.
+// mirror keeps the twin in step if the service ACCEPTS a malformed request and
+// acts on part of it (this is what the unrepaired take / replace / util/js /
+// add did, findings D62 and D63; on the repaired code every such request is
+// answered 400 and nothing is mirrored): it applies exactly the parts that
+// can run.
 func (w *svcWorld) mirror(o map[string]interface{}, class string) []interface{} {
 	mal, name := str(o["mal"]), str(o["name"])
 	if mal != "missing" && mal != "illtyped" {
